@@ -162,12 +162,8 @@ def check_op(ctx, h, r):
         return
     if r.op[0] == "set" and ep.value_as_tree(r.op[2]) is None:
         return  # invalid value (C07)
-    try:
-        from nix_manipulator.cli.manipulations import _parse_npath
-
-        _parse_npath(path)
-    except ValueError:
-        return  # malformed path
+    if not ep.path_wellformed(path):
+        return  # malformed path (judged by the property's own grammar, not by the code under test)
     names = ep.split_path(path)
     tb = ep.safe_tree(r.before_text)
     if tb is None or isinstance(tb, tuple):
